@@ -139,7 +139,7 @@ theorem run_log_all_accepted (L : Legal) (s : St) (os : List Op) :
 
 /-! ### the interleaved discipline is not atomic (the defect that was repaired) -/
 
-def anyLegal : Legal := { iso := fun _ _ => true, joliet := fun _ _ => true, udf := fun _ _ => true }
+def anyLegal : Legal := { iso := fun _ _ => true, joliet := fun _ _ => true, udf := fun _ _ => true, isoMaxDepth := none }
 def emptySt : St := { iso := some [], joliet := some [], udf := none }
 /-- add_fp(iso_path='/A', joliet_path='/NOSUCHDIR/X') -/
 def badOp : Op := { kind := .add false, iso := some [[65]], joliet := some [[78], [88]], udf := none }
@@ -175,13 +175,16 @@ theorem isDirAt_mono (ns : Ns) (e : Entry) (p : Path) (h : isDirAt ns p = true) 
   · exact Or.inl h
   · exact Or.inr (Or.inr h)
 
-theorem add_wf (legal : Bool → Name → Bool) (d : Bool) (p : Path) (ns : Ns) (h : WfNs ns)
-    (hc : checkAdd legal d p ns = none) : WfNs (⟨p, d⟩ :: ns) := by
+theorem add_wf (legal : Bool → Name → Bool) (md : Option Nat) (d : Bool) (p : Path) (ns : Ns) (h : WfNs ns)
+    (hc : checkAdd legal md d p ns = none) : WfNs (⟨p, d⟩ :: ns) := by
   unfold checkAdd at hc
   cases hl : p.getLast? with
   | none => simp [hl] at hc
   | some name =>
     simp only [hl] at hc
+    by_cases hdepth : tooDeep md p = true
+    · rw [if_pos hdepth] at hc; cases hc
+    rw [if_neg hdepth] at hc
     split at hc
     · split at hc <;> cases hc
     · rename_i hpar
@@ -230,5 +233,90 @@ theorem rmdir_wf (p : Path) (ns : Ns) (h : WfNs ns) (hc : checkRmdir p ns = none
       apply hchild
       simp only [hasChild, List.any_eq_true, Bool.and_eq_true, decide_eq_true_eq]
       exact ⟨e, hmem, by rw [← hxeq, hxp], (h.2 e hmem).1⟩
+
+end Pycdlib.Atomic
+
+namespace Pycdlib.Atomic
+
+/-- an invariant that every accepted part preserves is preserved by the whole accepted edit -/
+theorem interleaved_preserves {σ : Type} (P : σ → Prop) (ps : List (Part σ))
+    (hp : ∀ p ∈ ps, ∀ s, P s → p.check s = none → P (p.apply s)) (s : σ) (h : P s)
+    (ha : (interleaved ps s).2 = none) : P (interleaved ps s).1 := by
+  induction ps generalizing s with
+  | nil => exact h
+  | cons p ps ih =>
+    simp only [interleaved] at ha ⊢
+    cases hc : p.check s with
+    | some c => simp [hc] at ha
+    | none =>
+      simp only [hc] at ha ⊢
+      exact ih (fun q hq => hp q (List.mem_cons_of_mem _ hq)) _ (hp p List.mem_cons_self s h hc) ha
+
+theorem get_set_self (s : St) (w : Which) (n : Ns) : (s.set w n).get w = some n := by
+  cases w <;> rfl
+
+theorem onNs_preserves_wf (w : Which) (chk : Ns → Option Cause) (f : Ns → Ns)
+    (hf : ∀ ns, WfNs ns → chk ns = none → WfNs (f ns)) (s : St) (h : Wf s) (hc : (onNs w chk f).check s = none) :
+    Wf ((onNs w chk f).apply s) := by
+  simp only [onNs] at hc ⊢
+  cases hw : s.get w with
+  | none => simp [hw] at hc
+  | some ns =>
+    simp only [hw] at hc ⊢
+    intro v m hv
+    by_cases hvw : w = v
+    · subst hvw
+      rw [get_set_self] at hv
+      cases hv
+      exact hf ns (h w ns hw) hc
+    · rw [get_set_ne s w v _ hvw] at hv
+      exact h v m hv
+
+theorem partFor_preserves_wf (L : Legal) (k : Kind) (w : Which) (p : Path) (s : St) (h : Wf s)
+    (hc : (partFor L k w p).check s = none) : Wf ((partFor L k w p).apply s) := by
+  cases k with
+  | add d => exact onNs_preserves_wf w _ _ (fun ns hns hchk => add_wf (L.get w) _ d p ns hns hchk) s h hc
+  | rmdir => exact onNs_preserves_wf w _ _ (fun ns hns hchk => rmdir_wf p ns hns hchk) s h hc
+
+/-- **C13 / C14 (tree invariant)**: every accepted add / rmdir keeps all three namespaces well formed — no path twice,
+every entry below an existing directory — and every refused one trivially does (it changes nothing). -/
+theorem step_preserves_wf (L : Legal) (s : St) (o : Op) (h : Wf s) : Wf (stepChecked L s o).1 := by
+  cases hv : (stepChecked L s o).2 with
+  | some c => rw [step_refused_unchanged L s o (by rw [hv]; simp)]; exact h
+  | none =>
+    have hag := (step_agrees L s o).2 hv
+    rw [hag]
+    apply interleaved_preserves Wf (parts L o) ?_ s h (by have := (step_agrees L s o).1; rw [hv] at this; exact this.symm)
+    intro p hp s' hs' hc
+    unfold parts at hp
+    simp only [List.mem_append] at hp
+    rcases hp with (hp | hp) | hp
+    · cases hi : o.iso with
+      | none => simp [hi] at hp
+      | some q => simp only [hi, List.mem_singleton] at hp; subst hp; exact partFor_preserves_wf L _ _ _ s' hs' hc
+    · cases hi : o.joliet with
+      | none => simp [hi] at hp
+      | some q => simp only [hi, List.mem_singleton] at hp; subst hp; exact partFor_preserves_wf L _ _ _ s' hs' hc
+    · cases hi : o.udf with
+      | none => simp [hi] at hp
+      | some q => simp only [hi, List.mem_singleton] at hp; subst hp; exact partFor_preserves_wf L _ _ _ s' hs' hc
+
+/-- the invariant holds along every history from a well-formed state -/
+theorem run_preserves_wf (L : Legal) (s : St) (os : List Op) (h : Wf s) : Wf (runLog L s os).1 := by
+  induction os generalizing s with
+  | nil => exact h
+  | cons o os ih =>
+    simp only [runLog]
+    have := step_preserves_wf L s o h
+    cases hstep : stepChecked L s o with
+    | mk s' v =>
+      rw [hstep] at this
+      cases v with
+      | none => exact ih s' this
+      | some c => exact ih s' this
+
+example : Wf emptySt := by
+  intro w ns h
+  cases w <;> simp [emptySt, St.get] at h <;> subst h <;> exact ⟨List.nodup_nil, fun e he => by cases he⟩
 
 end Pycdlib.Atomic
